@@ -2,7 +2,7 @@
    (`new_value.name = old_value.name`), at the level of objects -- OV.Rewrite.Apply identifies a value with its name and
    therefore cannot express a replacement output that is an already existing value; (2) how values created by
    replacements get their names: by the name authority of the graph they are inserted in (val_<counter of that graph>), as
-   the code is, or from one model-wide set (proposed_fixes/C07_fresh_names_unique_in_model.diff).
+   the code is, or from one model-wide set (proposed_fixes/ready/C07_02_fresh_names_unique_in_model.diff).
    No proofs in this file. *)
 From Coq Require Import List String Bool Arith.
 Require Import OV.Graph.Syntax OV.Rewrite.Apply OV.Rewrite.State.
@@ -54,7 +54,7 @@ Definition ex_shadow_after : graph :=
    number of forwarding Identity nodes added.
    fx = false, the code as read: every replacement output takes the name of the pattern output and its place among the
    graph outputs (replace_nodes_and_values).
-   fx = true, proposed_fixes/ready/C07_05: an existing value keeps its name -- the uses are redirected to it when the pattern
+   fx = true, proposed_fixes/ready/C07_05_returned_existing_value_keeps_its_name.diff: an existing value keeps its name -- the uses are redirected to it when the pattern
    output is not a graph output; it is forwarded through a new Identity node when both names are pinned; it is renamed only
    when its name is free (interior value taking over a graph output). *)
 Definition has (x : nat) (l : list nat) : bool := existsb (Nat.eqb x) l.
